@@ -95,6 +95,8 @@ pub struct StmtInfo {
     pub in_defset: Option<usize>,
     pub top_level: bool,
     pub decl: Option<usize>,
+    /// outline entry not asserted (def inside a multiclass body, def named by a paste expression)
+    pub optional: bool,
 }
 
 #[derive(Clone, Debug)]
@@ -220,6 +222,7 @@ pub struct Sem<'a> {
     cond_depth: usize,
     uninit: std::collections::BTreeSet<usize>,
     wrote_unset: bool,
+    mc_depth: usize,
     /// constructs not to generate (excluded by construction because of a listed known finding)
     pub disabled: std::collections::BTreeSet<String>,
     pub excluded: usize,
@@ -261,6 +264,7 @@ impl<'a> Sem<'a> {
             cond_depth: 0,
             uninit: Default::default(),
             wrote_unset: false,
+            mc_depth: 0,
             disabled: Default::default(),
             excluded: 0,
         }
@@ -1188,7 +1192,8 @@ impl<'a> Sem<'a> {
     }
     fn stmt_end(&mut self, kind: &'static str, start: usize, decl: Option<usize>, top_level: bool, in_defset: Option<usize>) {
         let end = self.here();
-        self.p.stmts.push(StmtInfo { file: self.cur, kind, range: (start, end), in_defset, top_level, decl });
+        let optional = decl.map(|d| self.p.decls[d].pasted).unwrap_or(false) || (kind == "Def" && self.mc_depth > 0);
+        self.p.stmts.push(StmtInfo { file: self.cur, kind, range: (start, end), in_defset, top_level, decl, optional });
     }
 
     fn class_stmt(&mut self) {
@@ -1509,6 +1514,7 @@ impl<'a> Sem<'a> {
         self.w(" {");
         self.indent += 1;
         self.depth += 1;
+        self.mc_depth += 1;
         self.scopes.push(Vec::new());
         self.p.feat.nested_scopes = self.p.feat.nested_scopes.max(self.scopes.len());
         let k = 1 + self.rng.below(3);
@@ -1536,6 +1542,7 @@ impl<'a> Sem<'a> {
             self.dead.push((t.0.clone(), t.3));
         }
         self.rec_targs.clear();
+        self.mc_depth -= 1;
         self.depth -= 1;
         self.indent -= 1;
         self.nl();
@@ -1643,7 +1650,8 @@ impl<'a> Sem<'a> {
             self.w(&format!("include \"{name}\"\n"));
             self.cur = h + 1;
             if self.rng.chance(1, 2) {
-                self.w(&format!("// header {h}\n"));
+                // a blank line keeps the banner from being the first declaration's doc comment
+                self.w(&format!("// header {h}\n\n"));
             }
             let k = 1 + self.rng.below(3);
             for _ in 0..k {
